@@ -9,7 +9,7 @@ from core import err_kind
 
 ID = "C14"
 MODEL_OP = "resampled / reordered / compound"
-RULE = ("inner WCS from the exact probe family (separable / coupled / more or fewer world than pixel axes), FITS (separable, celestial, rotated, celestial with one pixel axis sliced away) and gWCS "
+RULE = ("inner WCS from the exact probe family (separable / coupled / more or fewer world than pixel axes), FITS (separable, celestial, rotated, celestial with one pixel axis sliced away) and gWCS, each optionally wrapped once already by a reordering or resampling wrapper; orders given as list / tuple / ndarray "
         "tables, 1-4 dims; resampling: integer and fractional factors, scalar or per-axis, offsets, wrong lengths; "
         "reordering: every pixel and world permutation for <= 3 axes (sampled for 4), non-permutations; compound: 2-3 "
         "members with mappings that share, duplicate or separate pixel axes, wrong lengths, disagreeing shapes, "
@@ -50,6 +50,11 @@ def generate(rng, tier):
         case = {"kind": kind, "shape": shape, "fam": rng.choice(fams), "wseed": rng.randrange(10**6),
                 "with_shape": rng.random() < 0.8, "pixels": gen_pixels(rng, nd, shape),
                 "input_form": rng.choice(["scalar", "1d", "nd"])}
+        if kind != "compound" and rng.random() < 0.3:
+            # already-wrapped inner WCS: the inner WCS is itself a reordering / resampling wrapper
+            case["prewrap"] = rng.choice(["reordered", "resampled"])
+        if kind == "reordered":
+            case["order_type"] = rng.choice(["list", "list", "tuple", "ndarray"])
         if kind != "compound" and rng.random() < 0.3:
             # inner WCS whose pixel and world counts differ (already-wrapped / non-square families)
             case["fam"] = rng.choice(["probe_extra", "probe_drop", "fits_sliced"])
@@ -105,6 +110,24 @@ def generate(rng, tier):
         yield case
 
 
+def prewrap(ll, case):
+    """The inner WCS wrapped once already (deterministic in the case)."""
+    from ndcube.wcs.wrappers import ResampledLowLevelWCS, ReorderedLowLevelWCS
+    how = case.get("prewrap")
+    if not how:
+        return ll
+    r = random.Random(case["wseed"] + 17)
+    if how == "reordered":
+        po = list(range(ll.pixel_n_dim)); r.shuffle(po)
+        wo = list(range(ll.world_n_dim)); r.shuffle(wo)
+        return ReorderedLowLevelWCS(ll, po, wo)
+    # (factors that keep the once-wrapped pixel shape integral: the model's WCS description carries an integer shape)
+    ps = ll.pixel_shape
+    f = [r.choice([x for x in (1, 2, 0.5) if ps is None or float(ps[k] / x).is_integer()]) for k in range(ll.pixel_n_dim)]
+    o = [r.choice([0, 0.5, 1]) for _ in range(ll.pixel_n_dim)]
+    return ResampledLowLevelWCS(ll, f, o)
+
+
 def eval_p2w(wcs, pts, form):
     """Evaluate pixel_to_world_values at the given points passing scalars, 1-D or N-D arrays."""
     ll = W.low_level(wcs)
@@ -156,7 +179,7 @@ def run(case):
             inner = W.make_wcs(rng, shape, case["fam"], case["with_shape"])
             if case["bounds"] and isinstance(inner, W.ProbeWCS):
                 inner._bounds = [(-0.5, s - 0.5) for s in shape[::-1]]
-            ll = W.low_level(inner)
+            ll = prewrap(W.low_level(inner), case)
             f, o = case["factor"], case["offset"]
             fl = [f] * nd if not isinstance(f, list) else f
             ol = [o] * nd if not isinstance(o, list) else o
@@ -217,7 +240,7 @@ def run(case):
             shape = tuple(case["shape"])
             nd = len(shape)
             inner = W.make_wcs(rng, shape, case["fam"], case["with_shape"])
-            ll = W.low_level(inner)
+            ll = prewrap(W.low_level(inner), case)
             po = case["pixel_order"]
             wn = ll.world_n_dim
             wo = list(range(wn)); random.Random(case["wperm_seed"]).shuffle(wo)
@@ -227,7 +250,8 @@ def run(case):
             res["model_req"] = {"op": "reordered", "wcs": wdesc(ll, True), "types": types, "pixelOrder": po, "worldOrder": wo,
                                 "pixels": [[frac(x) for x in p] for p in case["pixels"]]}
             try:
-                wr, err = ReorderedLowLevelWCS(ll, po, wo), None
+                conv = {"list": list, "tuple": tuple, "ndarray": np.array}[case.get("order_type", "list")]
+                wr, err = ReorderedLowLevelWCS(ll, conv(po), conv(wo)), None
             except Exception as e:
                 wr, err = None, err_kind(e)
             res["impl"]["err"] = err
@@ -382,7 +406,10 @@ def run(case):
 
 def base_eval(case, member=None):
     rng = random.Random(case["wseed"])
-    return W.make_wcs(rng, tuple(case["shape"]), case["fam"], case["with_shape"])
+    inner = W.make_wcs(rng, tuple(case["shape"]), case["fam"], case["with_shape"])
+    if case["kind"] == "resampled" and case.get("bounds") and isinstance(inner, W.ProbeWCS):
+        inner._bounds = [(-0.5, s - 0.5) for s in tuple(case["shape"])[::-1]]
+    return prewrap(W.low_level(inner), case)
 
 
 def compare(case, r, m):
